@@ -78,13 +78,14 @@ def strIndexBare (t : String) : Bool :=
   cs.head? == some '_' && !rest.isEmpty && rest.all (fun c => isLetter c || isDigit c)
 
 /-- one index of `Display for CompoundVariable` given the index's `Display` text: a non-negative integer, an
-integral decimal, a name fragment and a variable are written bare, everything else in braces -/
+integral decimal, a name fragment and a variable whose name has no underscore are written bare, everything else in
+braces (a variable `_i` written bare would be read as the name fragment `_i`, `a_b` as two indexes) -/
 def indexText (e : PExp) (s : String) : String :=
   match e with
   | .int _ => s
   | .num t => if numIndexBare t then s else "{" ++ s ++ "}"
   | .str t => if strIndexBare t then t else "{" ++ s ++ "}"
-  | .var n => n
+  | .var n => if n.toList.contains '_' then "{" ++ s ++ "}" else n      -- 7719594: `x_{_i}`, not `x__i`
   | _ => "{" ++ s ++ "}"
 
 mutual
